@@ -191,6 +191,57 @@ def correspondence(ctx):
         # a flip inside the transaction-count / padding that leaves every txid and the header untouched cannot be detected and is
         # not in the property's domain; positions >= hdr_len + 1 are transaction data; position hdr_len is the tx count
         must_fail_at(ctx, "bit-flip-last:" + last_kind, scns, lambda s, tgt=tgt: tgt)
+    # a count or length of one transaction re-encoded in a WIDER CompactSize form (19 -> fd 19 00), header left alone: the transaction's
+    # bytes, hence its id, changed, so the stored merkle root no longer matches and the block must be rejected
+    import copy
+    scns = []
+    for tgt in (1, 2, 3):
+        for ti in range(len(blocks[tgt].txs)):
+            for what in ("ins", "outs", "script-in", "script-out"):
+                t0 = blocks[tgt].txs[ti]
+                if what == "script-out" and not t0.outs:
+                    continue
+                t = copy.copy(t0)
+                t.w_script = dict(t0.w_script)
+                if what == "ins":
+                    t.w_in = 3
+                elif what == "outs":
+                    t.w_out = r.choice([3, 5])
+                elif what == "script-in":
+                    t.w_script[("i", 0)] = 3
+                else:
+                    t.w_script[("o", 0)] = r.choice([3, 9])
+                b = copy.copy(blocks[tgt])
+                b.merkle_root = blocks[tgt].mroot()       # the header keeps the root of the ORIGINAL transactions
+                b.txs = list(blocks[tgt].txs)
+                b.txs[ti] = t
+                if b.header() != blocks[tgt].header() or b.enc() == blocks[tgt].enc():
+                    continue
+                chain2 = list(blocks)
+                chain2[tgt] = b
+                sc = K.Scenario(coin=coin, callback="csvdump", verify=True, start=1)
+                GC.simple_layout(sc, chain2)
+                sc.meta = {"re-encoded": "%d/%d/%s" % (tgt, ti, what)}
+                scns.append(sc)
+    must_fail_at(ctx, "re-encoded-transaction", scns, lambda s: int(s.meta["re-encoded"].split("/")[0]))
+    # a long chain with one bit of a prev-hash flipped at a height that is a power of two (4096, 16384 — where periodic work, if any,
+    # would fall), as a middle block and as the first processed block
+    long_blocks = GC.long_chain(r, "bitcoin", 16390 if ctx.thorough() else 4100)
+    scns = []
+    for (hh, st) in [(4096, 1), (4096, 4096), (2048, 2000)] if not ctx.thorough() else [(4096, 1), (4096, 4096), (8192, 1), (8192, 8192), (16384, 1), (16384, 16384), (16384, 15000), (12288, 1), (16385, 1)]:
+        sc = K.Scenario(coin="bitcoin", callback=["simplestats", "csvdump"][hh % 3 == 0], verify=True, start=st)
+        GC.simple_layout(sc, long_blocks, per_file=5000)
+        rawh = long_blocks[hh].enc()
+        name = K.blkname(hh // 5000)
+        segs = sc.files[name]["segs"]
+        for k, (off, data) in enumerate(segs):
+            if data[8:] == rawh:
+                d = bytearray(data)
+                d[8 + 4 + (hh % 32)] ^= 1 << (hh % 7)
+                segs[k] = (off, bytes(d))
+        sc.meta = {"long-flip": "%d from %d" % (hh, st)}
+        scns.append(sc)
+    must_fail_at(ctx, "long-chain-prev-flip", scns, lambda s: int(s.meta["long-flip"].split()[0]))
     # block swapped for a foreign (internally consistent) one
     scns = []
     for k in range(ctx.n(10, 60)):
